@@ -215,6 +215,10 @@ def getSymbol (R : Registry) (s : String) (cs : Option Bool := none) : Except Er
   match R.parseUnitName s cs with
   | [] => .error .undefined
   | (p, u, _) :: _ =>
+    -- F63 repair: a prefixed name that has a definition of its own reports that definition's symbol
+    match (if p != "" then R.units.find? (p ++ u) else none) with
+    | some own => .ok own.sym
+    | none =>
     match R.prefixes.find? p, R.units.find? u with
     | some pd, some ud => .ok (pd.sym ++ ud.sym)
     | _, _ => .error .key
@@ -455,7 +459,7 @@ def refOfOffset (R : Registry) (k : String) (all : UC) : Except Err UC :=
   match R.units.find? k with
   | none => .error .key
   | some d => if d.conv.isLogarithmic then .error .inexact
-              else if !d.isMult then .ok d.ref else .ok all
+              else if !d.isMult then .ok (all.mul d.ref) else .ok all      -- (F66 repair: the other factors are kept)
 
 /-- `NonMultiplicativeRegistry._convert` -/
 def convertNM (R : Registry) (autoconvert : Bool) (x : Rat) (src dst : UC) : Except Err Rat :=
